@@ -653,7 +653,6 @@ def _extras(tier):
                             try:
                                 r, errs = D.parafac2(data, rank, n_iter_max=8, init=init, linesearch=ls, nn_modes=nn, normalize_factors=norm, random_state=1, return_errors=True, tol=1e-12)
                             except TypeError as e:
-                                if nn == "all" and ls: continue   # observed: documented combination raises TypeError
                                 fails.append(f"{tag}: C06 C07 C08 C10 raises {type(e).__name__}: {e}"); continue
                             except Exception as e:
                                 fails.append(f"{tag}: C06 C07 C08 C10 raises {type(e).__name__}: {str(e)[:80]}"); continue
